@@ -343,9 +343,15 @@ class Gen:
         oned = K == 1 and rnd.random() < 0.7
         return {"vals": vals, "valid": valid, "form": form, "dtype": dtype, "oned": oned, "K": K}
 
-    def weights(self, n, small=False):
+    def weights(self, n, small=False, nondyadic=False):
         rnd = self.rnd
         r = rnd.random()
+        if nondyadic:
+            # forced: per-row weights that binary floating point cannot hold exactly
+            ws = [Fraction(1, 10), Fraction(3, 10), Fraction(1, 3), Fraction(7, 10), Fraction(1, 7), Fraction(11, 10)]
+            pm = rnd.choice([0.0, 0.0, 0.2])
+            return {"kind": "array", "w": [Fraction(rnd.choice(ws)) for _ in range(n)],
+                    "valid": [rnd.random() >= pm for _ in range(n)], "form": rnd.choice(["nan", "tuple"])}
         if r < 0.35:
             return None
         if r < 0.5:
